@@ -81,7 +81,7 @@ def resting_scenario(draw, tier="quick"):
             steps.append({"dt": dt, "k": "open", "bump": draw(st.booleans())})
         else:
             steps.append({"dt": dt, "k": "inplay", "bet_delay": 1, "status": "OPEN", "bump": True,
-                          "bsp": [round(world.ladder_prices(spec)[tick] + draw(st.sampled_from([-0.5, 0.0, 0.7])), 2), 3.0]})
+                          "bsp": [max(1.01, round(world.ladder_prices(spec)[tick] + draw(st.sampled_from([-0.5, 0.0, 0.7])), 2)), 3.0]})  # a starting price is never below 1.01
         if draw(st.integers(0, 2)) == 0:
             script.append({"m": 0, "at": len(steps), "ops": [draw(gen.follow_op())]})
     steps.append({"dt": 1000, "k": "suspend", "bump": True})
